@@ -8,7 +8,10 @@ for p in selftest/C*/*.patch seeded/C*/patch.diff; do
   total=$((total+1))
   out=$(tools/mutant.sh "$p" "$id" 2>&1 | tail -1)
   case "$out" in
-    *"exit 1"*) echo "caught  $p  $(echo "$out" | grep -o 'count=[0-9]*' | head -1)";;
+    *"exit 1"*) cnt=$(echo "$out" | grep -o 'count=[0-9]*' | head -1 | cut -d= -f2)
+                nv=$(echo "$out" | grep -o '[0-9]* violation line' | cut -d' ' -f1)
+                thin=""; [ -n "$cnt" ] && [ "$cnt" -lt 5 ] && [ "${nv:-0}" -lt 2 ] && thin="  THIN (one key, count $cnt: check other seeds)"
+                echo "caught  $p  count=$cnt$thin";;
     *) echo "MISSED  $p :: $out"; missed=$((missed+1));;
   esac
 done
